@@ -19,9 +19,11 @@
 (* the code-level functions (conformance) and evaluates the property       *)
 (* formulas on what the real code returned (monitor).                      *)
 (*                                                                         *)
-(* Strings are sequences of TOKENS; a fixed, prefix-free table Chr maps a   *)
-(* token to the characters it stands for (the driver has the same table    *)
-(* and checks its side conditions on the real enum / ParseBool).           *)
+(* Strings are sequences of TOKENS: every printable ASCII character, a few   *)
+(* non-ASCII ones and a few multi-character words (PHYSICS, ANY, process,    *)
+(* true); the fixed table Chr maps a token to the characters it stands for   *)
+(* (the driver has the same table) and a token sequence is judged by what it *)
+(* SPELLS (character classes, run type names, booleans).                    *)
 (***************************************************************************)
 EXTENDS Naturals, Sequences, FiniteSets, TLC
 
@@ -31,28 +33,54 @@ CONSTANT AutoEscape   \* TRUE: substituted variable values are HTML-escaped (pon
 (* ------------------------------------------------------------------------ *)
 (* Tokens                                                                   *)
 (* ------------------------------------------------------------------------ *)
-Lower  == {"a", "b", "p", "t"}            \* "p" = process, "t" = true  (multi-character lowercase words)
-Upper  == {"X"}
-Digit  == {"7", "0"}
-Enum   == {"P", "A"}                      \* "P" = PHYSICS, "A" = ANY: the only token strings that are RunType names
-Word   == Lower \cup Upper \cup Digit \cup {"-", "_"} \cup Enum      \* the class [a-zA-Z0-9-_] (and [a-z-A-Z0-9-_])
-UWord  == Upper \cup Digit \cup {"-", "_"} \cup Enum                 \* the class [A-Z0-9-_]
-EntryCh == Word \cup {"/"}                                           \* the class [a-z-A-Z0-9-_/]
-Blank  == {" ", "T", "N"}                 \* space, tab, newline: what strings.TrimSpace removes
-VOnly  == {",", "Q", "[", "]"}            \* value-only characters of query parameters: , " [ ]
-VWord  == Word \cup VOnly                 \* the class [a-zA-Z0-9-_,"\[\]]
-Illegal == {"@", "."}
-Tok    == Word \cup {"/"} \cup Blank \cup VOnly \cup {"=", "&"} \cup Illegal
+\* Every printable ASCII character is a token named by itself - except that the names p t P A T N Q are taken by the
+\* multi-character / control tokens below, so those seven letters are named ~p ~t ~P ~A ~T ~N ~Q, and the double quote
+\* is named Q.  A few non-ASCII characters are named by their code point (their Chr is an ASCII transliteration, which
+\* the driver applies to every string it records: TLA+ string literals are ASCII).
+LowerCh == {"a", "b", "c", "d", "e", "f", "g", "h", "i", "j", "k", "l", "m", "n", "o", "~p", "q", "r", "s",
+            "~t", "u", "v", "w", "x", "y", "z"}
+UpperCh == {"~A", "B", "C", "D", "E", "F", "G", "H", "I", "J", "K", "L", "M", "~N", "O", "~P", "~Q", "R",
+            "S", "~T", "U", "V", "W", "X", "Y", "Z"}
+Digit   == {"0", "1", "2", "3", "4", "5", "6", "7", "8", "9"}
+Lower   == LowerCh \cup {"p", "t"}          \* "p" = process, "t" = true  (multi-character lowercase words)
+Upper   == UpperCh
+Enum    == {"P", "A"}                      \* "P" = PHYSICS, "A" = ANY (multi-character uppercase words, RunType names)
+Word    == Lower \cup Upper \cup Digit \cup {"-", "_"} \cup Enum     \* the class [a-zA-Z0-9-_] (and [a-z-A-Z0-9-_])
+UWord   == Upper \cup Digit \cup {"-", "_"} \cup Enum                \* the class [A-Z0-9-_]
+EntryCh == Word \cup {"/"}                                          \* the class [a-z-A-Z0-9-_/]
+Blank   == {" ", "T", "N", "u00A0", "u2003"}   \* space, tab, newline, NBSP, EM SPACE: what strings.TrimSpace removes
+VOnly   == {",", "Q", "[", "]"}            \* value-only characters of query parameters: , " [ ]
+VWord   == Word \cup VOnly                 \* the class [a-zA-Z0-9-_,"\[\]]
+Punct   == {"!", "#", "$", "%", "'", "(", ")", "*", "+", ".", ":", ";", "<", ">", "?", "@", "\\", "^", "`",
+            "{", "|", "}", "~"}                            \* the rest of printable ASCII: in no class
+NonAscii == {"u00E9", "u03A9"}             \* e-acute, capital omega: in no class
+Illegal == Punct \cup NonAscii
+Tok     == Word \cup {"/"} \cup Blank \cup VOnly \cup {"=", "&"} \cup Illegal
 
 Chr(t) == CASE t = "P" -> "PHYSICS" [] t = "A" -> "ANY" [] t = "p" -> "process" [] t = "t" -> "true"
-            [] t = "T" -> "\t" [] t = "N" -> "\n" [] t = "Q" -> "\"" [] OTHER -> t
+            [] t = "T" -> "\t" [] t = "N" -> "\n" [] t = "Q" -> "\""
+            [] t = "~p" -> "p" [] t = "~t" -> "t" [] t = "~P" -> "P" [] t = "~A" -> "A" [] t = "~T" -> "T"
+            [] t = "~N" -> "N" [] t = "~Q" -> "Q"
+            [] t = "u00A0" -> "<U+00A0>" [] t = "u2003" -> "<U+2003>" [] t = "u00E9" -> "<U+00E9>" [] t = "u03A9" -> "<U+03A9>"
+            [] OTHER -> t
 
 RECURSIVE Str(_)
 Str(s) == IF s = <<>> THEN "" ELSE Chr(Head(s)) \o Str(Tail(s))
 
-IsEnum(seg) == Len(seg) = 1 /\ seg[1] \in Enum       \* side condition on the table, checked by the driver
-IsBool(seg) == seg \in {<<"t">>, <<"0">>}            \* strconv.ParseBool accepts "true" and "0"; side condition checked by the driver
-BoolOf(seg) == seg = <<"t">>
+\* Token sequences are judged by the characters they SPELL (several sequences may spell the same string):
+\* apricotpb.RunType_value, strconv.ParseBool and the key "process" (the driver records the real tables in a "Table"
+\* line and the trace specification compares them with these).
+EnumNames == {"NULL", "PHYSICS", "TECHNICAL", "PEDESTAL", "PULSER", "LASER", "CALIBRATION_ITHR_TUNING",
+              "CALIBRATION_VCASN_TUNING", "CALIBRATION_THR_SCAN", "CALIBRATION_DIGITAL_SCAN", "CALIBRATION_ANALOG_SCAN",
+              "CALIBRATION_FHR", "CALIBRATION_ALPIDE_SCAN", "CALIBRATION", "COSMICS", "SYNTHETIC", "NOISE",
+              "CALIBRATION_PULSE_LENGTH", "CALIBRATION_VRESETD", "ANY"}
+TrueStrings  == {"1", "t", "T", "TRUE", "true", "True"}
+FalseStrings == {"0", "f", "F", "FALSE", "false", "False"}
+ProcessKey == "process"
+IsEnum(seg) == Str(seg) \in EnumNames
+IsBool(seg) == Str(seg) \in TrueStrings \cup FalseStrings
+BoolOf(seg) == Str(seg) \in TrueStrings
+IsProcess(key) == Str(key) = ProcessKey
 
 Min(S) == CHOOSE x \in S : \A y \in S : x <= y
 Max(S) == CHOOSE x \in S : \A y \in S : x >= y
@@ -168,8 +196,8 @@ SpelledParams(t) ==
   LET ps == Split(t, "&") IN
   IF ~(\A i \in 1..Len(ps) : WfPair(ps[i])) THEN {} ELSE
     LET kv == [i \in 1..Len(ps) |-> Split(ps[i], "=")]
-        procs == {i \in 1..Len(ps) : kv[i][1] = <<"p">>}
-    IN IF \E i, j \in 1..Len(ps) : i # j /\ kv[i][1] = kv[j][1] THEN {}          \* one value per key
+        procs == {i \in 1..Len(ps) : IsProcess(kv[i][1])}
+    IN IF \E i, j \in 1..Len(ps) : i # j /\ Str(kv[i][1]) = Str(kv[j][1]) THEN {}  \* one value per key
        ELSE IF \E i \in procs : ~IsBool(kv[i][2]) THEN {}                        \* process=<bool>
        ELSE {[proc |-> \A i \in procs : BoolOf(kv[i][2]),                        \* default TRUE
               vars |-> {<<kv[i][1], kv[i][2]>> : i \in (1..Len(ps)) \ procs}]}
@@ -196,11 +224,11 @@ CodeParseParams(s) ==
         key(i) == SubSeq(ps[i], 1, FirstEq(ps[i]) - 1)
         val(i) == SubSeq(ps[i], FirstEq(ps[i]) + 1, Len(ps[i]))
         keys == {key(i) : i \in 1..Len(ps)}
-        valsOf(k) == {i \in 1..Len(ps) : key(i) = k}
+        valsOf(k) == {i \in 1..Len(ps) : Str(key(i)) = Str(k)}
     IN IF \E k \in keys : Cardinality(valsOf(k)) # 1 THEN Reject
-       ELSE IF \E i \in 1..Len(ps) : key(i) = <<"p">> /\ ~IsBool(val(i)) THEN Reject
-       ELSE [proc |-> \A i \in 1..Len(ps) : key(i) = <<"p">> => BoolOf(val(i)),
-             vars |-> {<<key(i), val(i)>> : i \in {j \in 1..Len(ps) : key(j) # <<"p">>}}]
+       ELSE IF \E i \in 1..Len(ps) : IsProcess(key(i)) /\ ~IsBool(val(i)) THEN Reject
+       ELSE [proc |-> \A i \in 1..Len(ps) : IsProcess(key(i)) => BoolOf(val(i)),
+             vars |-> {<<key(i), val(i)>> : i \in {j \in 1..Len(ps) : ~IsProcess(key(j))}}]
 
 ParamsExact(s) == /\ \A r \in SpelledParams(Trim(s)) : CodeParseParams(s) = r
                   /\ SpelledParams(Trim(s)) = {} => CodeParseParams(s) = Reject
